@@ -31,6 +31,14 @@ var _ func(int) frt.Tuple2[GBox[int], GBox[int]] = i_dup[int]
 var _ func() frt.Tuple2[GBox[int], GBox[int]] = i_dup_int
 var _ func() frt.Tuple2[GBox[string], GBox[string]] = i_dup_str
 var _ func(GRes[int], GRes[int]) frt.Tuple2[GRes[int], GRes[int]] = i_twice_union
+var _ func(int, int) bool = i_lt
+var _ func(int, int) bool = i_gt
+var _ func(int, int) bool = i_le
+var _ func(int, int) bool = i_ge
+var _ func(string, string) bool = i_eq
+var _ func(string, string) bool = i_ne
+var _ func(int, bool) bool = i_logic
+var _ func([]int) []int = i_cmp_lambda
 var _ func(int, int, int, int) int = i_chain
 var _ func(int, string, string) frt.Tuple3[int, bool, int] = i_chain2
 
